@@ -155,7 +155,7 @@ pub fn run(ctx: &mut Ctx) {
         extras: true,
         all_widths: false,
     };
-    ctx.meta("rule", "cases: (document, cut position c, capacity, read schedule); documents = every forest over V up to the node bound and the hand-written deep spines, every known/unknown-size choice of masters, one encoding/payload deviation; every c in 0..=len; capacities {default,16,17,64}; schedules with <= 1 short read (1,2,3,7 bytes at read k). Oracle: RefEncoder layout -> items completely inside the prefix, then Ends+None on a tag boundary, else UnexpectedEOF with tag_start/id/size/partial_data exactly as the statement prescribes (partial_data None accepted for zero available bytes). Non-trivial: cuts strictly inside a tag.");
+    ctx.meta("rule", "cases: (document, cut position c, capacity, read schedule); documents = every forest over V up to the node bound and the hand-written deep spines, every known/unknown-size choice of masters, one encoding/payload deviation; every c in 0..=len; capacities {default,16,17,64}; schedules with <= 1 short read (1,2,3,7 bytes at read k) and with every read 1 resp. 2 bytes. Oracle: RefEncoder layout -> items completely inside the prefix, then Ends+None on a tag boundary, else UnexpectedEOF with tag_start/id/size/partial_data exactly as the statement prescribes (partial_data None accepted for zero available bytes). Non-trivial: cuts strictly inside a tag.");
     ctx.meta("bounds", &format!("documents <= {} elements (+ spines to depth 5 with 8-byte ids), <=1 deviation, all cuts, 4 capacities, <=1 read deviation", p.max_nodes));
     ctx.meta("assumptions", "payload contents are data-independent beyond the representative classes");
     for c in ["cut_inside_id", "cut_inside_size", "cut_inside_payload", "cut_on_boundary_with_open_masters", "unknown_size_docs"] {
